@@ -22,7 +22,8 @@ Definition m_excl (m : fmode) : bool := match m with Mx | Mxbare => true | _ => 
 
 Record rfile := mkrf { r_content : list Z; r_pos : Z; r_rd : bool; r_wr : bool; r_app : bool }.
 
-Definition zeros (n : Z) : list Z := repeat 0 (Z.to_nat (Z.min n 1000000)).
+(* n comes from seek offsets / truncate sizes; the correspondence generator keeps it small *)
+Definition zeros (n : Z) : list Z := repeat 0 (Z.to_nat n).
 
 (* write d at offset off (zero-filling a gap past EOF); writing b"" changes nothing *)
 Definition put (c : list Z) (off : Z) (d : list Z) : list Z :=
